@@ -2,13 +2,13 @@
 //   [1 cap [[data err] ...] [op ...]]   reader script over a scripted source (chunks handed out in order; a chunk
 //        larger than the room is split, its error is delivered with its last byte; afterwards (0, io.EOF) forever)
 //     ops: [1 n] Read  [2] ReadByte  [3] UnreadByte  [4 delim] ReadSlice  [5] ReadLine  [6 n] Peek
-//          [8 delim] ReadBytes  [9] WriteTo(bytes.Buffer)  [10] ReadRune  [11] UnreadRune
+//          [8 delim] ReadBytes  [9] WriteTo(bytes.Buffer)  [10] ReadRune  [11] UnreadRune  [12] Reset(same source)
 //   [3 cap src ops]  same, the source also implements io.WriterTo (writes its remaining chunks up to the first
 //        chunk with an error; io.EOF counts as a clean end)
 //     observation per op: [[ret...] TotalRead pulled Buffered]
 //   [2 cap [[limit err] ...] [op ...]]  writer script over a scripted sink (k-th underlying Write accepts at most
 //        limit bytes and returns err; afterwards accepts everything)
-//     ops: [1 data] Write  [2 c] WriteByte  [3 data] WriteString  [4] Flush  [6 [[data err] ...]] ReadFrom  [7 r] WriteRune
+//     ops: [1 data] Write  [2 c] WriteByte  [3 data] WriteString  [4] Flush  [6 [[data err] ...]] ReadFrom  [7 r] WriteRune  [5] Reset(fresh sink)
 //   [4 cap sink ops]  same, the sink also implements io.ReaderFrom (reads the reader to its end, no limits)
 //     observation per op: [[ret...] TotalWrite sunk Buffered]; last element of the output: sink contents
 package main
@@ -17,6 +17,7 @@ import (
 	"bytes"
 	"errors"
 	"io"
+	"time"
 
 	"verif/harness/hv"
 
@@ -207,6 +208,10 @@ func implReader(l hv.L, wt bool) hv.Val {
 			ret = hv.L{hv.I(int(r)), hv.I(size), hv.I(errCode(err))}
 		case 11:
 			ret = hv.L{hv.I(errCode(b.UnreadRune()))}
+		case 12: // Reset onto the same source; the pulled counter restarts
+			ret = hv.L{hv.I(src.pulled)}
+			src.pulled = 0
+			b.Reset(rd)
 		default:
 			return hv.Err(0)
 		}
@@ -247,6 +252,14 @@ func implWriter(l hv.L, rf bool) hv.Val {
 		case 7:
 			n, err := b.WriteRune(rune(int32(hv.AsInt(op[1]))))
 			ret = hv.L{hv.I(n), hv.I(errCode(err))}
+		case 5: // Reset onto a fresh sink that continues the sink script
+			ret = hv.L{hv.B(sink.out)}
+			sink = &scriptWriter{ls: sink.ls}
+			wr = sink
+			if rf {
+				wr = scriptWriterRF{sink}
+			}
+			b.Reset(wr)
 		default:
 			return hv.Err(0)
 		}
@@ -352,7 +365,12 @@ func genReader(r *hv.Rng) (string, hv.Val) {
 		if style > 2 && r.Chance(1, 8) {
 			c = 20 + r.Intn(2)
 		}
+		if r.Chance(1, 25) {
+			c = 22
+		}
 		switch {
+		case c == 22:
+			ops = append(ops, hv.L{hv.I(12)})
 		case c == 20:
 			ops = append(ops, hv.L{hv.I(10)})
 		case c == 21:
@@ -453,7 +471,18 @@ func genWriter(r *hv.Rng) (string, hv.Val) {
 		if n < 0 {
 			n = 0
 		}
-		switch c := r.Intn(14); {
+		if r.Chance(1, 20) && eff <= 64 {
+			// ReadFrom that fills the buffer exactly and then hits EOF: the pre-emptive flush branch
+			ops = append(ops, hv.L{hv.I(4)}, hv.L{hv.I(6), hv.L{hv.L{hv.B(r.Bytes(eff)), hv.I(r.Intn(2))}}})
+			continue
+		}
+		switch c := r.Intn(15); {
+		case c == 14:
+			if r.Chance(1, 2) {
+				ops = append(ops, hv.L{hv.I(5)})
+			} else {
+				ops = append(ops, hv.L{hv.I(4)})
+			}
 		case c >= 12:
 			rn := []int{0, 'a', 0x7f, 0x80, 0x7ff, 0x800, 0xd7ff, 0xd800, 0xdfff, 0xe000, 0xffff, 0x10000, 0x10ffff, 0x110000, -1, -200, 0x20ac, 0x1f600}[r.Intn(18)]
 			if r.Chance(1, 4) {
@@ -488,5 +517,5 @@ func gen(r *hv.Rng, i int, tier string) (string, hv.Val) {
 }
 
 func main() {
-	hv.Main(&hv.Spec{Prop: "C22", Gen: gen, Impl: impl, NQuick: 4000, NThorough: 150000})
+	hv.Main(&hv.Spec{Prop: "C22", Gen: gen, Impl: impl, NQuick: 4000, NThorough: 150000, Deadline: 5 * time.Second})
 }
